@@ -663,6 +663,11 @@ def rules(chk: Check) -> None:
     chk.floor("R17.5", 8)
     chk.floor("R17.6", 8)
     chk.floor("R17.7", 4)
+    # R17.8: with endpoints=True coordinates, compact coordinates and Jacobians are padded at the same ends per direction (used element by element)
+    from .shared import endpoint_padding_agrees, no_inplace_mutation_of_aliased_state
+    chk.stage(endpoint_padding_agrees, chk, "R17.8")
+    # R17.9: the grid classes never update a cached array through a view (the cache stays what _cacheCoordinates computed)
+    chk.stage(no_inplace_mutation_of_aliased_state, chk, "R17.9", ("grid", "grid3Scales"), 1)
 
 
 class _StarEx(Extractor):
